@@ -131,9 +131,16 @@ typedef struct Endpoint {
 	char io_err_what[128];
 	int eof_seen, eof_ret;
 	int data_after_fail;            /* recv returned application bytes though it must not */
+	int recv_errs;                  /* recv calls that returned an error (not EOF, not EAGAIN) */
+	uint64_t first_err_at; int first_err_at_set, first_err_ret;
+	uint64_t got_after_err;         /* genuine in-order bytes delivered after an error return */
 	uint64_t rd_calls, wr_calls;
 	int finished;
 	Rng rbuf;
+	size_t rd_at_done;              /* bytes of the incoming pipe consumed when the handshake returned */
+	/* app record map: k-th application record this endpoint sent */
+	struct { int rec; uint64_t start; uint32_t len; } recmap[MAX_REC];
+	int nrecmap;
 } Endpoint;
 
 extern Endpoint g_ep[2 * NET_MAX_CONN];
@@ -168,7 +175,8 @@ typedef struct RunResult {
 typedef struct Scenario {
 	const char *name;
 	const char *property;
-	void (*gen)(Plan *p, uint64_t run_seed, int tier);
+	int variants_per_base;   /* consecutive indices share one base plan (and its fault-free twin) */
+	void (*gen)(Plan *p, uint64_t base_seed, uint64_t variant, int tier);
 	void (*run)(const Plan *p, RunResult *r);
 } Scenario;
 
@@ -191,16 +199,26 @@ typedef struct HonestOut {
 	int io_err[2]; char io_err_what[2][128];
 	int eof_ok;
 	int data_after_fail[2];
+	int recv_errs[2];
+	uint64_t got_after_err[2];
 	uint64_t hs_done_step[2];
 	int nrecs[2];
 	RecInfo recs[2][MAX_REC];
 	uint64_t sent_len[2];
+	size_t rd_at_done[2];           /* per endpoint side */
+	int nrecmap[2];                 /* per direction */
+	struct { int rec; uint64_t start; uint32_t len; } recmap[2][MAX_REC];
+	int finished[2];
+	int step_capped, quiesced;
 } HonestOut;
 
 /* run one client/server connection per plan (faults included) and collect what happened */
 void conn_run(const Plan *p, const CredSet *cs, HonestOut *out,
 	void (*on_record)(Conn *, int, int, const uint8_t *, size_t),
 	void (*pre_run)(Endpoint *cl, Endpoint *sv));
+
+extern int (*g_quiesce_hook)(void);
+void honest_oracle(const Plan *p, const HonestOut *o, RunResult *r);
 
 /* monitors */
 void mon_reset(void);
